@@ -225,7 +225,9 @@ def registry():
         v = Spec("sedov.sedov.Sedov@vacuum", b2.cls)
         v.kwargs = {"geometry": 3, "omega": 2.4, "gamma": 1.4}
         v.alt = {"geometry": 2, "omega": 1.7}
-        v.points = lin(0.06, 0.62); v.t = 1.0; v.cost = "slow"      # straddles the vacuum boundary (0.07 ... 0.16) and the shock (0.46 ... 0.6)
+        # points between the vacuum boundaries at t and 1.3 t (0.070 / 0.088 and 0.133 / 0.163), inside, and at the shock
+        v.points = lambda n: [0.05, 0.08, 0.14, 0.3, 0.45, 0.58][:n] if n >= 6 else [0.08, 0.14, 0.3, 0.45][:n]
+        v.t = 1.0; v.cost = "slow"
         _CACHE[v.name] = v
     return _CACHE
 
